@@ -20,10 +20,16 @@ Inductive re :=
 | Eos                                     (* $  (non-MULTILINE) *)
 | Bos.                                    (* ^  (non-MULTILINE) *)
 
+(* The translator emits range lists sorted by lower bound, so the scan may stop as
+   soon as the character is below the next range (this is the definition of
+   membership used everywhere; nothing assumes more about it). *)
 Fixpoint in_ranges (c : N) (cs : list (N * N)) : bool :=
   match cs with
   | [] => false
-  | (lo, hi) :: t => ((lo <=? c)%N && (c <=? hi)%N) || in_ranges c t
+  | (lo, hi) :: t =>
+      if (c <? lo)%N then false
+      else if (c <=? hi)%N then true
+      else in_ranges c t
   end.
 
 (* Matcher state: a zipper over the text. [pre] is reversed. *)
@@ -219,7 +225,7 @@ Fixpoint finditer_loop (fuel : nat) (r : re) (ng : nat) (t : str) (e : nat)
 Definition finditer_pe (r : re) (ng : nat) (t : str) (pos endpos : nat) : list mo :=
   if endpos <? pos then [] else
   let '(p, e) := clip pos endpos t in
-  finditer_loop (S (S (e - p))) r ng t e p false.
+  finditer_loop (S (S (2 * (e - p)))) r ng t e p false.
 
 Definition finditer (r : re) (ng : nat) (t : str) : list mo :=
   finditer_pe r ng t 0 (length t).
